@@ -20,7 +20,8 @@ RULE = ("Data-first LPs as in C05 (feasible-bounded / infeasible / open cost dir
         "1e-7(1+|obj_ref|).  Non-trivial = >= 2 variables, >= 1 general row and a vector/matrix form or a "
         "non-zero constant in the rendering.  A third of the solves pass the keywords Problem.solve documents for every problem (maxiter, tol, x0, use_hessian); the verdict and objective must not change."
         '  Also: a third round after the two solves: orientation flipped with the same objective object, or a redundant row added (forces re-extraction from the same expression objects).'
-        ' Also (round 6): the caller keeps one options dict through an earlier solve limited with maxiter=1 and the judged solves.')
+        ' Also (round 6): the caller keeps one options dict through an earlier solve limited with maxiter=1 and the judged solves.'
+        ' Four generations of a short-lived twin LP (other additive constants) are solved, dropped and collected before a quarter of the judged models (id() reuse).')
 BUDGET = {"quick": {"workers": 16, "examples": 350}, "thorough": {"workers": 16, "examples": 6000}}
 ASSUMPTIONS = ["HiGHS is deterministic: identical arrays give identical verdicts, so a differing verdict means different data was passed"]
 MANIFEST = {
@@ -75,6 +76,8 @@ def check(case):
     classes = ["method:" + method, "flavour:" + model["flavour"]] + (["kw:" + "+".join(sorted(case["kw"]))] if case.get("kw") else [])
     desc = f"{models.describe(model)} method={method}"
     with quiet():
+        if len(desc) % 4 == 1 and models.short_lived_twin(model, method):
+            classes.append("after-short-lived-twin-with-other-constants")
         try:
             P, b, built = models.build_problem(model)
         except Exception as ex:
